@@ -49,6 +49,22 @@ type V struct {
 func NewV(a bool, b int64) V { return V{a, b} }
 `
 
+const opSource = `// Package p (other/p) has the same name as the package goderive generates for.
+package p
+
+type G struct {
+	A int
+	b string
+}
+
+func NewG(a int) G { return G{A: a} }
+
+type User struct {
+	Name string
+	Tags []string
+}
+`
+
 const oextSource = `// Package ext (other/ext) has the same name as example.com/w/ext.
 package ext
 
@@ -72,6 +88,11 @@ func (w *World) Render() map[string]string {
 	if w.HasExt {
 		out["ext/ext.go"] = extSource
 		out["other/ext/ext.go"] = oextSource
+		out["other/p/p.go"] = opSource
+	}
+	pname := "p"
+	if w.PName != "" {
+		pname = w.PName
 	}
 	// package p
 	fileNames := []string{"a.go", "b.go", "c.go"}
@@ -105,7 +126,7 @@ func (w *World) Render() map[string]string {
 		}
 	}
 	for i := 0; i < w.NFiles; i++ {
-		src := renderFile("p", uses[i], chunks[i], "")
+		src := renderFile(pname, uses[i], chunks[i], "")
 		if i < len(w.Unfmt) && w.Unfmt[i] {
 			src = unformat(src)
 		}
@@ -115,7 +136,7 @@ func (w *World) Render() map[string]string {
 		out["p/"+fileNames[i]] = src
 	}
 	if len(testChunks) > 0 {
-		out["p/p_test.go"] = renderFile("p", testUses, testChunks, "")
+		out["p/p_test.go"] = renderFile(pname, testUses, testChunks, "")
 	}
 	if w.HasQ {
 		var qchunks []string
@@ -136,7 +157,11 @@ func (w *World) Render() map[string]string {
 		out["q/q.go"] = renderFile("q", quses, qchunks, "q")
 	}
 	for _, k := range sortedKeys(w.RawFiles) {
-		out[k] = w.RawFiles[k]
+		v := w.RawFiles[k]
+		if strings.HasPrefix(k, "p/") && strings.HasPrefix(v, "package p\n") {
+			v = "package " + pname + "\n" + strings.TrimPrefix(v, "package p\n")
+		}
+		out[k] = v
 	}
 	return out
 }
@@ -206,8 +231,11 @@ func renderFile(pkgName string, uses map[string]bool, chunks []string, from stri
 	if uses["oext"] {
 		imps = append(imps, fmt.Sprintf("\toext %q", ModulePath+"/other/ext"))
 	}
+	if uses["op"] {
+		imps = append(imps, fmt.Sprintf("\top %q", ModulePath+"/other/p"))
+	}
 	if uses[""] && from == "q" {
-		imps = append(imps, fmt.Sprintf("\t%q", ModulePath+"/p"))
+		imps = append(imps, fmt.Sprintf("\tp %q", ModulePath+"/p"))
 	}
 	if uses["unsafe"] {
 		imps = append(imps, "\t\"unsafe\"")
